@@ -51,6 +51,11 @@ def split_numbers(s, after="=/"):
                 t = m.group(1)
                 if "/" in t:
                     a, b = t.split("/")
+                    if int(b) == 0:
+                        # not a rational of the model (denominators are >= 1): text of a label, keep it as text
+                        out.append(ch)
+                        i += 1
+                        continue
                     v = float(Fraction(int(a), int(b)))
                 else:
                     v = float(t)
